@@ -194,6 +194,15 @@ where
     C: std::fmt::Debug + Clone + Serialize,
     S: Strategy<Value = C>,
 {
+    search_opts(ctx, lr, name, total_cases, strat, check, 200)
+}
+
+/// Like `search`, with an explicit bound on shrink iterations (expensive checks).
+pub fn search_opts<C, S>(ctx: &Ctx, lr: &mut LaneResult, name: &str, total_cases: u32, strat: S, check: &CheckFn<C>, max_shrink_iters: u32)
+where
+    C: std::fmt::Debug + Clone + Serialize,
+    S: Strategy<Value = C>,
+{
     let mut remaining = ctx.share(total_cases);
     let mut attempt = 0u64;
     while remaining > 0 && attempt < 8 {
@@ -201,7 +210,7 @@ where
             cases: remaining,
             rng_seed: RngSeed::Fixed(ctx.lane_seed(name) ^ attempt.wrapping_mul(0x5851f42d4c957f2d)),
             failure_persistence: None,
-            max_shrink_iters: 200,
+            max_shrink_iters,
             max_shrink_time: 0,
             verbose: 0,
             max_global_rejects: 100_000,
